@@ -25,9 +25,12 @@ def hook(ch, ctx):
         if res["sent"] or res["bmc"] or res["err"] == "nil":
             ch.violation(desc, dict(detail, what="a request the library refuses must end in an error with nothing transmitted"))
         return
-    if len(res["sent"]) != n:
+    udp = bool(ctx["scn"].get("udp"))
+    if len(res["sent"]) != n and not (udp and len(res["sent"]) > n and kind != "transport-error"):
+        # (over real sockets a reply that arrives after the attempt's window costs one more transmission: not a fault)
         ch.violation(desc, dict(detail, what="expected %d transmissions, saw %d" % (n, len(res["sent"]))))
         return
+    n = len(res["sent"])
     # every transmission is a complete, correctly addressed encoding of that command
     fn, body, ent, cmd = conn.cmd_op(step["cmd"])
     evs = [e for e in res["bmc"]]
